@@ -34,4 +34,6 @@ val firstn : nat -> 'a1 list -> 'a1 list
 
 val skipn : nat -> 'a1 list -> 'a1 list
 
+val seq : nat -> nat -> nat list
+
 val repeat : 'a1 -> nat -> 'a1 list
